@@ -205,8 +205,9 @@ def r6_symbol_namespace(run, F):
     of = origins.origins(d["hir"], f["a"][1], d.get("params", ()))
 
     def decorated(o):
-        return any(x[0] == "call" and ("format" in x[1] or "push_str" in x[1] or "concat" in x[1]) for x in o) or \
-            any(x[0] == "lit" and isinstance(x[1], str) and x[1] for x in o)
+        # a distinguishing decoration is text added to the source name on every path (format!/push_str/concat); a conditional
+        # fallback to another literal is not one
+        return any(x[0] == "call" and ("format" in x[1] or "push_str" in x[1] or "concat" in x[1]) for x in o)
     disjoint = decorated(og) != decorated(of)
     frees = False
     for q in site.get("LLVMGetNamedGlobal", []):
